@@ -52,7 +52,8 @@ class C06(runner.Check):
           'at the 1st / k-th / a range of suggest or early-stop invocations, behind the in-process '
           'Pythia, the gRPC server or the split remote-Pythia deployment, inside a history of client '
           'calls by several workers, followed (after faults stop) by follow-up suggests and early-stop '
-          'checks by the same and by fresh workers; distinct = hash of (deployment, fault kinds x sites '
+          'checks by the same and by fresh workers; a failed algorithm call must be reported (errored operation, error '
+          'status or raising client), leave nothing unfinished and not wedge later calls; distinct = hash of (deployment, fault kinds x sites '
           'x positions, op kind sequence); non-trivial iff a fault actually fired and >=1 follow-up '
           'suggest by the same worker ran afterwards')
   assumptions = [
